@@ -1,20 +1,24 @@
 //! cte-mc: bounded-exhaustive exploration of pachi/cteenergymodel (see /verif/DESIGN.md)
 #![allow(clippy::all)]
 #![allow(non_snake_case)]
+#![allow(dead_code)]
 
 mod common;
 mod gen;
+mod sup;
 mod c07;
 mod c13;
-mod sup;
+mod c14;
+mod refm;
 mod c15;
+mod c16;
 
 use common::{Ctx, Tier};
 
 fn main() {
     let args: Vec<String> = std::env::args().collect();
     if args.len() < 2 {
-        eprintln!("usage: cte-mc <ID> <quick|thorough> | replay <file>");
+        eprintln!("usage: cte-mc <ID> <quick|thorough> | replay <file> | worker <space>");
         std::process::exit(2);
     }
     common::install_panic_hook();
@@ -24,6 +28,8 @@ fn main() {
         let code = sup::worker_main(&space, &|sp, idx| {
             if sp.starts_with("c13bvh") {
                 c13::worker(sp, idx)
+            } else if sp.starts_with("c14") {
+                c14::worker(sp, idx)
             } else {
                 serde_json::json!({"verdict": "unknown-space"})
             }
@@ -34,11 +40,16 @@ fn main() {
         Some("thorough") => Tier::Thorough,
         _ => Tier::Quick,
     };
-    let code = match id {
-        "C07" => c07::run(&Ctx::new("C07", tier)),
-        "C13" => c13::run(&Ctx::new("C13", tier)),
-        "C15" => c15::run(&Ctx::new("C15", tier)),
-        _ => {
+    let checks: Vec<(&str, fn(&Ctx) -> i32)> = vec![
+        ("C07", c07::run),
+        ("C13", c13::run),
+        ("C14", c14::run),
+        ("C15", c15::run),
+        ("C16", c16::run),
+    ];
+    let code = match checks.iter().find(|c| c.0 == id) {
+        Some((name, f)) => f(&Ctx::new(name, tier)),
+        None => {
             eprintln!("unknown check {}", id);
             2
         }
